@@ -711,6 +711,81 @@ def refute_serdes(binp):
     return None
 
 
+# ---- the tower (C09 / C12): structured elements through the real operations against the schoolbook reference of vx/replay.py ------------------
+def refute_tower(binp):
+    rnd = random.Random(31)
+    dims = {'Fq2': 2, 'Fq6': 6, 'Fq12': 12}
+    names = {'Fq2': ['c0', 'c1'], 'Fq6': [f'c{i}__c{j}' for i in range(3) for j in range(2)],
+             'Fq12': [f'c{k}__c{i}__c{j}' for k in range(2) for i in range(3) for j in range(2)]}
+    mulf = {'Fq2': rp.f2mul, 'Fq6': rp.f6mul, 'Fq12': rp.f12mul}
+
+    def args(T, pref, v):
+        return {f'{pref}__{n}': hex(x) for n, x in zip(names[T], v)}
+
+    def call(T, op, **vals):
+        kv = {}
+        for k, v in vals.items():
+            if isinstance(v, list):
+                kv.update(args(T, k, v))
+            else:
+                kv[k] = str(v)
+        out, cmd = run_bin(binp, f'{T}_{op}', kv)
+        return out, cmd, kv
+    for T, d in dims.items():
+        one = [1] + [0] * (d - 1)
+        elems = [[0] * d, one] + [[(c if i == j else 0) for i in range(d)] for j in range(d) for c in (1, Q - 1, 7)][:3 * d]
+        elems += [[rnd.randrange(Q) if (i // 2) == blk else 0 for i in range(d)] for blk in range(d // 2)]      # one Fq2 block non-zero
+        elems += [[rnd.randrange(Q) for _ in range(d)] for _ in range(2)]
+        for x in elems:
+            X = rp.unflat(x, T)
+            # inverse: None exactly for zero, otherwise x * y == 1
+            out, cmd, kv = call(T, 'inverse', self=x)
+            if 'error' not in out:
+                if out.get('tag') == 'none':
+                    if any(x):
+                        return dict(function=f'{T}::inverse', input=kv, actual='None', expected='Some(y) with x*y == 1', command=cmd)
+                else:
+                    y = [int(v, 16) for v in out['out']]
+                    if not any(x) or rp.flat(mulf[T](X, rp.unflat(y, T))) != one:
+                        return dict(function=f'{T}::inverse', input=kv, actual=str(y)[:300], expected='x*y == 1' if any(x) else 'None', command=cmd)
+            # square == x * x ; product with a dense element
+            out, cmd, kv = call(T, 'square', self=x)
+            if 'error' not in out and [int(v, 16) for v in out['out']] != rp.flat(mulf[T](X, X)):
+                return dict(function=f'{T}::square', input=kv, actual=str(out['out'])[:300], expected=str([hex(v) for v in rp.flat(mulf[T](X, X))])[:300], command=cmd)
+            y = elems[-1]
+            out, cmd, kv = call(T, 'mul_assign', self=x, other=y)
+            if 'error' not in out and [int(v, 16) for v in out['out']] != rp.flat(mulf[T](X, rp.unflat(y, T))):
+                return dict(function=f'{T}::mul_assign', input=kv, actual=str(out['out'])[:300], expected='schoolbook product', command=cmd)
+        # Frobenius: k = 1 is x -> x^q (square-and-multiply with the reference product); every k equals k-fold application of k = 1; no panic for any k
+        x = elems[-2]
+        X = rp.unflat(x, T)
+        acc, base, e = rp.unflat(one, T), X, Q
+        while e:
+            if e & 1:
+                acc = mulf[T](acc, base)
+            base = mulf[T](base, base); e >>= 1
+        f1 = rp.flat(acc)
+        cur = x
+        chain = [x]
+        for k in range(1, 14):
+            out, cmd, kv = call(T, 'frobenius_map', self=chain[-1], k=1)
+            if 'error' in out:
+                break
+            chain.append([int(v, 16) for v in out['out']])
+        if len(chain) > 1 and chain[1] != f1:
+            return dict(function=f'{T}::frobenius_map', input=dict(k=1, **args(T, 'self', x)), actual=str(chain[1])[:300], expected='x^q', command=cmd)
+        period = 2 if T == 'Fq2' else (6 if T == 'Fq6' else 12)
+        for k in (0, 2, 3, 5, 6, 7, 11, 12, 13, 23, 24, 25, 30, 1000, 18446744073709551615):
+            out, cmd, kv = call(T, 'frobenius_map', self=x, k=k)
+            if 'error' in out:
+                continue
+            exp = chain[k % period] if (k % period) < len(chain) else None
+            act = 'panic' if out.get('tag') == 'panic' else [int(v, 16) for v in out['out']]
+            if exp is not None and act != exp:
+                return dict(function=f'{T}::frobenius_map', input=kv, actual=str(act)[:300], expected=f'{k % period}-fold application of x -> x^q', command=cmd)
+    return None
+
+
 # ---- stand-ins: functions that no contract reaches are driven on structured inputs against the independent reference on EVERY run.
 # They are tests, not proofs: reported separately in the evidence (coverage.stand_ins), never counted as obligations.
 STANDINS = {
@@ -719,6 +794,9 @@ STANDINS = {
     'expand_message_hash_to_field': (refute_expand, "ExpandMsgXmd / ExpandMsgXof / hash_to_field (generic Digest chains and closures: outside the Verus subset) against hashlib: tag lengths 0, 1, 27, 254, 255; output lengths around every block boundary and the 255-block limit (abort expected beyond it); element counts 0..5"),
     'sum_of_products': (refute_msm, "(also under contract in unit msm; kept as an end-to-end cross-check through the compiled point formulas) sum_of_products / sum_of_products_pippinger (windows 1..20) / sum_of_products_precomp_256: empty input, duplicates, inverse pairs, identity points, zero scalars, mismatched lengths, scalars with bits at word boundaries and 2^255-1"),
     'serdes_streams': (refute_serdes, "(cross-check: the SerDes functions are under contract in units serdes / serout) serialize / deserialize for Fr, Fq12, G1, G2 and the affine types end to end: bytes written after existing sink content, bytes consumed with 0 / 50 / 9000 trailing bytes, truncation at several lengths, non-reduced blocks"),
+    'tower_ops': (refute_tower, "(cross-check: the tower is under contract in unit tower) Fq2 / Fq6 / Fq12 inverse, square, mul_assign and frobenius_map on zero, one, every single-coefficient element, single-block elements and random elements; "
+                  "frobenius_map(1) against x^q, every power (0..30, 1000, usize::MAX) against iterated application, no panic"),
+    'fq2_sqrt_order': (refute_fq2, "Fq2::sqrt (Algorithm 9: only its constants and the zero case are under contract, A8'), legendre, cmp / partial_cmp, sgn0 on zero, +-1, +-u, 2, 2u, real, purely imaginary and random elements and their squares"),
     'encoders_api': (lambda binp: refute_encode(binp), "into_compressed / into_uncompressed through the public API on random points, both roots, small x, y in Fq / purely imaginary, the identity, with non-trivial Z"),
 }
 
